@@ -8,7 +8,8 @@ Part A (approximator level): the full product
   x step (two scalars, one per-component vector of the length of x)
   x how the step is given (f_gradient(step=...) / constructor)
   x x_indices (the default and every non-empty subset)
-  x parallel (off / on = 2 processes)
+  x parallel (off / on = 2 processes; the quick tier crosses parallel=on with step in {first scalar, vector} given at
+    call only - each parallel run costs ~60 ms of process start-up; the thorough tier runs the full product)
   x design space (none / bounded with normalize off / bounded with normalize on)
 Part B (discipline level): Discipline.linearize in the three approximation modes (B1),
 Discipline.check_jacobian(indices=...) on a correct Jacobian and on Jacobians wrong in exactly one selected
@@ -53,7 +54,8 @@ Oracle boundaries
 * Per-component step vectors have the length of x (DisciplineJacApprox enforces it, compute_optimal_step
   produces it, "one step by input component"); a vector of the length of the subset is not enumerated.
 * parallel=True means processes: CallableParallelExecution documents (and enforces with a ValueError) that
-  thread workers must be distinct objects, which the approximators (n times the same bound method) are not.
+  thread workers must be distinct objects, which the approximators (n times the same bound method) are not -
+  every approximator, and Discipline.check_jacobian(parallel=True, use_threading=True), raises that ValueError.
   The call log lives in fork-shared memory so that the bound oracle also sees the children's evaluations.
 * x_indices is enumerated as sorted subsets (the statement says "subset"; column order of a permuted
   selection is not specified).
@@ -468,6 +470,7 @@ def exec_A(case):
             viols.append(("finite-jacobian", f"jacobian={j2.tolist()} expected={expected.tolist()}"))
         else:
             err = np.abs(j2 - expected)
+            obs["tightness"] = float((err / tol).max())  # observed error / derived bound (sharpness of the oracle)
             bad = ~(err <= tol)
             if bad.any():
                 i, c = map(int, np.argwhere(bad)[0])
@@ -845,6 +848,9 @@ def check_case(case, tally):
         if obs.get("below_lower_bound"):
             tally.count("cases_with_evaluations_below_a_lower_bound(not an oracle)")
         tally.count("function_evaluations_logged", int(obs.get("n_calls", 0)))
+        if "tightness" in obs and not viols:
+            t = obs["tightness"]
+            tally.count(f"observed_error/bound:{case['approx']}:{obs.get('order')}:" + (">=0.1" if t >= 0.1 else ">=0.001" if t >= 1e-3 else "<0.001"))
     else:
         outcome = f"{case['part']}:{case['mode']}:{status}" + (f":{obs.get('result')}" if "result" in obs else "")
     nontrivial = bool([f for f in flags if not f.startswith("fn=")])
